@@ -55,7 +55,9 @@ const (
 /u<mary> "height"@[] "151"^^type:int64
 /u<peter> "height"@[] "174"^^type:int64
 /u<joe> "bought"@[2016-01-01T00:00:00-08:00] /c<mini>
-/u<joe> "bought"@[2016-02-01T00:00:00-08:00] /c<tesla>`
+/u<joe> "bought"@[2016-02-01T00:00:00-08:00] /c<tesla>
+/u<bob> "likes"@[] /u<amy>
+/u<bob> "weight"@[] "80"^^type:int64`
 	dataH = `/u<amy> "parent_of"@[] /u<zoe>
 /u<zoe> "height"@[] "99"^^type:int64`
 	dataDest = `/u<x> "knows"@[] /u<y>`
@@ -100,6 +102,9 @@ type stmt struct {
 	Text string `json:"text"`
 	Chan int    `json:"chan_size"`
 	Bulk int    `json:"bulk_size"`
+	// Procs is what runtime.GOMAXPROCS(0) answers inside the planner (weight of the
+	// semaphore in front of the per-row lookups); 0 = 2.
+	Procs int `json:"procs,omitempty"`
 	// Memo: the faulty store is additionally wrapped by storage/memoization (an
 	// anchor of the property): planner -> memoizer -> faulty driver -> memory.
 	Memo bool `json:"memoized,omitempty"`
@@ -150,6 +155,10 @@ var corpus = []stmt{
 	{ID: "Q23", Kind: "select", Text: `select ?o, count(?c) as ?n from ?g where {/u<joe> "parent_of"@[] ?o . ?o "parent_of"@[] ?c} group by ?o order by ?o having ?n > "0"^^type:int64 limit "5"^^type:int64;`},
 	// the same two-clause query through the memoization layer (miss path, context cancellation by the errgroup)
 	{ID: "Q24", Kind: "select", Text: `select ?s, ?p, ?o from ?g where {?s "height"@[] ?n . ?s ?p ?o};`, Memo: true},
+	{ID: "Q25", Kind: "select", Text: `select ?o, ?c from ?g where {/u<joe> "parent_of"@[] ?o . ?o "parent_of"@[] ?c};`, Memo: true, Chan: 1},
+	// the per-row lookups behind a semaphore of weight 1 (Acquire blocks and is released by cancellation) and with buffered result channels
+	{ID: "Q26", Kind: "select", Text: `select ?s, ?p, ?o from ?g where {?s "height"@[] ?n . ?s ?p ?o};`, Procs: 1},
+	{ID: "Q27", Kind: "select", Text: `select ?o, ?c from ?g where {/u<joe> "parent_of"@[] ?o . ?o "parent_of"@[] ?c};`, Chan: 2, Procs: 4},
 	// INSERT / DELETE
 	{ID: "U01", Kind: "insert", Text: `insert data into ?g {/u<a> "p"@[] /u<b>};`},
 	{ID: "U02", Kind: "insert", Text: `insert data into ?g, ?h {/u<a> "p"@[] /u<b> . /u<a> "p"@[] /u<c>};`},
@@ -161,7 +170,8 @@ var corpus = []stmt{
 	{ID: "C03", Kind: "construct", Bulk: 1, Text: `construct {?s "measured"@[] ?o; "unit"@[] "cm"^^type:text} into ?dest from ?g where {?s "height"@[] ?o};`},
 	{ID: "C04", Kind: "construct", Bulk: 1000, Text: `construct {?s "measured"@[] ?o; "unit"@[] "cm"^^type:text} into ?dest from ?g where {?s "height"@[] ?o};`},
 	{ID: "C05", Kind: "construct", Bulk: 1, Text: `construct {?s "tall"@[] ?o} into ?dest, ?h from ?g where {?s "height"@[] ?o};`},
-	{ID: "C06", Kind: "construct", Bulk: 1, Tag: "template-error", BaselineErr: true, Text: `construct {?o "known_by"@[] /u<peter>} into ?dest from ?g where {/u<peter> ?p ?o};`},
+	{ID: "C06", Kind: "construct", Bulk: 1, Tag: "template-error", BaselineErr: true, Text: `construct {?o "liked_by"@[] /u<bob>} into ?dest from ?g where {/u<bob> ?p ?o};`},
+	{ID: "C07", Kind: "construct", Bulk: 1, Memo: true, Text: `construct {?s "tall"@[] ?o} into ?dest from ?g where {?s "height"@[] ?o};`},
 	{ID: "D01", Kind: "deconstruct", Bulk: 1, Text: `deconstruct {?s "parent_of"@[] ?o} in ?h from ?g where {?s "parent_of"@[] ?o};`},
 	{ID: "D02", Kind: "deconstruct", Bulk: 1000, Text: `deconstruct {?s "parent_of"@[] ?o} in ?h, ?dest from ?g where {?s "parent_of"@[] ?o};`},
 	// SHOW / CREATE / DROP
@@ -465,7 +475,17 @@ func (g *fGraph) Triples(c context.Context, lo *storage.LookupOptions, out chan<
 
 // horizon: the longest fault-free statement of the corpus needs < 2000 steps and
 // < 60000 ticks (measured, see evidence); a run beyond these budgets is a hang.
-var execCfg = vrt.Config{MaxSteps: 20000, MaxTicks: 600000, Procs: 2}
+// Diag: the call sites of pending operations are recorded (about 25% slower) so
+// that a leak / deadlock shape names the function a thread is parked in.
+var execCfg = vrt.Config{MaxSteps: 20000, MaxTicks: 600000, Procs: 2, Diag: true}
+
+func (s *stmt) cfg() vrt.Config {
+	c := execCfg
+	if s.Procs > 0 {
+		c.Procs = s.Procs
+	}
+	return c
+}
 
 // mkExec builds the factory of fresh executions of one statement under one fault plan.
 func mkExec(sc *stmt, faults []fault, keep **hx) func() explore.Exec {
@@ -533,9 +553,14 @@ func classOf(sc *stmt, faults []fault) string {
 	if len(faults) == 0 {
 		return sc.class() + ":no-fault"
 	}
+	// the set of fault kinds planned (a pair of two write faults has the class of one)
+	seen := map[string]bool{}
 	var ks []string
 	for _, f := range faults {
-		ks = append(ks, faultKind(f))
+		if k := faultKind(f); !seen[k] {
+			seen[k] = true
+			ks = append(ks, k)
+		}
 	}
 	sort.Strings(ks)
 	return sc.class() + ":" + strings.Join(ks, "+")
@@ -543,7 +568,7 @@ func classOf(sc *stmt, faults []fault) string {
 
 var siteRe = regexp.MustCompile(`^([A-Za-z0-9_.()*]+)`)
 
-// leakShape names the threads left behind by the function they are parked in
+// blockedShape names the threads left behind by the function they are parked in
 // (needs Config.Diag; falls back to the pending operation).
 func blockedShape(out *vrt.Outcome) string {
 	var ks []string
@@ -556,7 +581,12 @@ func blockedShape(out *vrt.Outcome) string {
 		if m := siteRe.FindString(b.Site); m != "" {
 			where = m
 		}
-		if where == "" {
+		switch {
+		case strings.HasPrefix(where, "planner.(*constructPlan).Execute.func1"):
+			where = "construct-bulk-writer" // the goroutine of constructPlan.Execute that batches and writes the triples
+		case strings.HasPrefix(where, "main.stream"):
+			where = "driver-call-streaming-its-result" // a driver call whose consumer went away
+		case where == "":
 			where = "?"
 		}
 		ks = append(ks, where+"="+op)
